@@ -558,8 +558,26 @@ func (m *model) releaseConf(c *mConf) {
 	}
 }
 
+// isUnused: what nfs40_program.go documents about open-owners that are
+// reclaimed without the client asking for it ("open-owners that no
+// longer have any open files associated with them, or are unconfirmed,
+// and have not been used for some time"; "no open files or are not
+// confirmed"): an open-owner is unused when no transaction of it is in
+// progress and it is unconfirmed or none of its files is open any more.
+// A file whose CLOSE is the owner's last transaction is not open any
+// more; its record only survives for the retransmission of that CLOSE.
+// The period starts when the owner was last used, i.e. when its last
+// transaction completed (completeTxn).
 func (oo *mOO) isUnused() bool {
-	return len(oo.files) == 0 || (len(oo.files) == 1 && oo.lastResp != nil && oo.lastResp.closed != nil) || !oo.confirmed
+	if !oo.confirmed {
+		return true
+	}
+	for _, of := range oo.files {
+		if of.access != 0 {
+			return false
+		}
+	}
+	return true
 }
 
 // ---------------------------------------------------------------------
